@@ -155,7 +155,8 @@ def derived_map(fn: loader.Func, name: str, depth: int = 0):
         return None
     K, V = ast.Name(id="KEY_", ctx=ast.Load()), ast.Name(id="VAL_", ctx=ast.Load())
     found = None
-    ds = [d for d in defs(fn).get(name, []) if not (isinstance(d, ast.Dict) and not d.keys) and not (isinstance(d, ast.Call) and canon(d) == "dict()")]
+    ds = [d for d in defs(fn).get(name, []) if not (isinstance(d, ast.Dict) and not d.keys) and not (isinstance(d, ast.Call) and canon(d) in ("dict()", "list()"))
+          and not (isinstance(d, ast.List) and not d.elts)]
     comp = [d for d in ds if isinstance(d, ast.DictComp)]
     if len(ds) == 1 and comp and len(comp[0].generators) == 1:
         g = comp[0].generators[0]
@@ -167,6 +168,21 @@ def derived_map(fn: loader.Func, name: str, depth: int = 0):
     elif not ds:
         # loop idiom: the only stores into name[...] sit in one for-loop over BASE.items()
         sts = [s for s in A.stores(fn) if isinstance(s.target, ast.Subscript) and A.dotted(s.target.value) == name and isinstance(s.node, ast.Assign)]
+        if not sts:
+            # a list of (key, value) pairs filled with name.append((K, V)) is the same mapping as a dict filled with name[K] = V
+            apps = [s for s in A.stores(fn, shallow=False) if s.kind == "mutcall" and A.dotted(s.target) == name and isinstance(s.node, ast.Call)
+                    and isinstance(s.node.func, ast.Attribute) and s.node.func.attr == "append" and len(s.node.args) == 1
+                    and isinstance(s.node.args[0], ast.Tuple) and len(s.node.args[0].elts) == 2]
+            if len(apps) == 1:
+                class _S:
+                    pass
+                st_ = _S()
+                st_.stmt = apps[0].stmt
+                st_.target = _S()
+                st_.target.slice = apps[0].node.args[0].elts[0]
+                st_.node = _S()
+                st_.node.value = apps[0].node.args[0].elts[1]
+                sts = [st_]
         if len(sts) == 1:
             st = sts[0]
             loop = next((a for a in A.ancestors(st.stmt) if isinstance(a, ast.For)), None)
